@@ -22,14 +22,14 @@ theorem build_cons (st : BState) (t : Tok) (rest : List Tok) :
   simp only [build]
   cases step st t rest.head? <;> rfl
 
-/-- the shape `build` relies on (a consequence of `wfElem`) -/
-def shapeOk : Elem → Prop
-  | .mk _ _ _ text tail kids =>
-    tail = none ∧ (∀ t, text = some t → kids = [] ∧ pyNonBlank (some t) = true)
+theorem textWritten_some {t : Str} (h : t ≠ []) : textWritten (some t) true = true := by
+  cases t with
+  | nil => exact absurd rfl h
+  | cons c cs => simp [textWritten]
 
 theorem wfElem_shape {pns : List (Str × Str)} {tag nsd attrs text tail kids}
     (h : wfElem pns (.mk tag nsd attrs text tail kids) = true) :
-    tail = none ∧ (∀ t, text = some t → kids = [] ∧ pyNonBlank (some t) = true) ∧
+    tail = none ∧ (∀ t, text = some t → kids = [] ∧ t ≠ []) ∧
     wfKids (scope pns nsd) kids = true := by
   simp only [wfElem, Bool.and_eq_true] at h
   obtain ⟨⟨⟨⟨⟨⟨_, _⟩, _⟩, _⟩, ht⟩, htl⟩, hk⟩ := h
@@ -37,7 +37,7 @@ theorem wfElem_shape {pns : List (Str × Str)} {tag nsd attrs text tail kids}
   intro t hte
   subst hte
   simp only [textOk, Bool.and_eq_true] at ht
-  exact ⟨by simpa using ht.1.1, ht.1.2⟩
+  exact ⟨by simpa using ht.1.1, by simpa using ht.1.2⟩
 
 theorem toksE_head (pns : List (Str × Str)) (isRoot : Bool) (indent : Nat) (e : Elem) :
     ∃ n as sc rest, toksE pns isRoot indent e = .stag n as sc :: rest := by
@@ -83,12 +83,15 @@ theorem build_toksE (pns : List (Str × Str)) (isRoot : Bool) (indent : Nat) (e 
       · simp only [hroot, Bool.false_eq_true, ↓reduceIte, Option.bind_some]
         cases text with
         | some t =>
-          obtain ⟨hk, hnb⟩ := htext t rfl
+          obtain ⟨hk, hne⟩ := htext t rfl
           subst hk
-          have hb := not_blank_of_pyNonBlank hnb
-          simp only [hnb, ↓reduceIte, toksK, List.isEmpty_nil, List.nil_append, List.cons_append,
-            build_cons, step, hb, Bool.false_and, Bool.false_eq_true, Frame.addText,
-            Option.getD_none, Option.bind_some, rawKids]
+          -- the text of a childless element is kept even when it is white space only
+          have hdrop : ∀ (n n' : Str) (as : List (Str × Str)),
+              dropBlank ⟨n, as, none, []⟩ (some (.etag n')) = false := by
+            intro n n' as; simp [dropBlank, isEtag]
+          simp only [List.isEmpty_nil, textWritten_some hne, ↓reduceIte, toksK, List.nil_append,
+            List.cons_append, build_cons, step, List.head?_cons, hdrop, Bool.and_false,
+            Bool.false_eq_true, Frame.addText, Option.getD_none, Option.bind_some, rawKids]
           simp [Frame.close]
         | none =>
           simp only [List.nil_append]
